@@ -228,6 +228,7 @@ func c15Main(c *lib.Ctx) {
 	}
 	c15Workbook(c, perMesg)
 	c15Dynamic(c, entries)
+	c15Compressed(c)
 	c.Sample("entry", 1, map[string]interface{}{"message": 20, "field": 253, "struct_field": lib.FieldName(20, prof.Field(20, 253).Sindex), "type_word": prof.Field(20, 253).Raw})
 }
 
@@ -399,6 +400,95 @@ func c15Dynamic(c *lib.Ctx, entries []fit.VerifField) {
 				}
 				c.Nontrivial([]byte(fmt.Sprintf("dynamic %d.%d ft%d arch%d", e.Mesg, e.Num, ft, arch)))
 				c.Count("dynamic_streams", 1)
+			}
+		}
+	}
+}
+
+// c15Compressed drives the one profile-driven access that does not come from a
+// field definition: the value a compressed timestamp header carries is "field
+// 253" of the message, whatever the message is. One stream per known message,
+// host file type and definition shape: a record with a full timestamp, then the
+// message under a compressed header, (a) with a zero-field definition, (b) with
+// every non-253 field of the message defined at profile size and left invalid.
+// Compared with the reference model: only the struct field that the table gives
+// for field 253 (if any) may differ from the constructor's value.
+func c15Compressed(c *lib.Ctx) {
+	prof := lib.Profile()
+	for _, m := range lib.KnownMesgs() {
+		if m == 0 {
+			continue
+		}
+		var hosts []byte
+		for _, ft := range lib.FileTypes {
+			if prof.Hosted(ft.Type, m) {
+				hosts = append(hosts, ft.Type)
+			}
+		}
+		hosted := len(hosts) > 0
+		if !hosted {
+			hosts = []byte{4}
+		}
+		for _, ft := range hosts {
+			for shape := 0; shape < 2; shape++ {
+				rng := lib.NewRand("C15.compressed", uint64(m)*512+uint64(ft)*2+uint64(shape))
+				g := lib.NewPlanGen(rng, lib.GenOpts{FileType: ft, HeaderSize: 14, Mesgs: []uint16{m}})
+				plan := g.P
+				arch := byte(shape)
+				ts := uint64(0x30000000 + rng.Intn(1<<24))
+				tsb := make([]byte, 4)
+				ref.Put(tsb, ts, 4, arch)
+				// a message every file type accepts as carrier of the reference: the
+				// message itself if it has field 253, else an unknown message number
+				// cannot set it, so use record/monitoring-like carrier 20 (ignored by
+				// containers that do not host it, the reference is set all the same)
+				plan.Records = append(plan.Records,
+					ref.Record{IsDef: true, Local: 5, Arch: arch, Global: 20, Fields: []ref.FieldDef{{Num: 253, Size: 4, Base: 0x86}}},
+					ref.Record{Local: 5, Data: [][]byte{tsb}})
+				def := ref.Record{IsDef: true, Local: byte(rng.Intn(4)), Arch: arch, Global: m}
+				var data [][]byte
+				if shape == 1 {
+					for _, pf := range prof.ByMesg[m] {
+						if pf.Num == 253 {
+							continue
+						}
+						bt, _ := ref.BaseByIndex(pf.Base)
+						sz := bt.Size
+						fd := ref.FieldDef{Num: pf.Num, Size: byte(sz), Base: bt.Code}
+						def.Fields = append(def.Fields, fd)
+						inv := make([]byte, sz)
+						ref.Put(inv, bt.Invalid, sz, arch)
+						data = append(data, inv)
+					}
+				}
+				off := byte(rng.Intn(32))
+				plan.Records = append(plan.Records, def, ref.Record{Local: def.Local, Compressed: true, TimeOffset: off, Data: data})
+				b := plan.Bytes()
+				c.SetInflight(b)
+				ex, err := lib.Expect(plan, lib.ExpectOpts{})
+				if err != nil || ex.Fail {
+					c.Violation(b, "harness: model failed on compressed probe of message %d: %v", m, err)
+					continue
+				}
+				f, derr, out := lib.GuardedDecode(b)
+				c.Eval()
+				if out.Panicked || out.Hang {
+					c.Violation(b, "decoding message %d under a compressed timestamp header panicked: %s\n%s", m, out.Panic, out.Stack)
+					continue
+				}
+				if derr != nil {
+					c.Violation(b, "decoding message %d under a compressed timestamp header failed: %v", m, derr)
+					continue
+				}
+				if diffs := lib.CompareContent(ex.Content, lib.FileContent(f), lib.CompareOpts{Skip: compSkip(plan, ex)}); len(diffs) > 0 {
+					c.Violation(b, "message %d under a compressed timestamp header: the carried time does not land in the struct field the table gives for field 253 (and only there): %s", m, lib.DiffsString(diffs, 3))
+					continue
+				}
+				c.Nontrivial([]byte(fmt.Sprintf("compressed %d ft%d shape%d", m, ft, shape)))
+				c.Count("compressed_header_streams", 1)
+				if prof.Field(m, 253) == nil {
+					c.Count("compressed_header_streams_message_without_253", 1)
+				}
 			}
 		}
 	}
